@@ -661,6 +661,11 @@ func (rr *roundRun) simple(cl *cli, x *xspec) (alive bool) {
 		}
 	case "status":
 		target, host = cl.target("origin.test", fmt.Sprintf("/status/%d", x.Status))
+		if x.Status == 101 {
+			// a 101 that is no protocol switch (no Upgrade field): answered with an error response
+			// (the repaired F42: a regression target)
+			pathKind = "upgradeNonWritable"
+		}
 	case "chunked":
 		target, host = cl.target("origin.test", fmt.Sprintf("/chunked?n=%d", x.Size))
 	case "auth407":
@@ -1096,6 +1101,9 @@ func runRound(ctx *core.Ctx, w *world, rc *roundCase) {
 	for _, c := range rc.Conns {
 		for _, x := range c.Exchanges {
 			ctx.Count("kind/" + x.Kind)
+			if x.Kind == "status" && x.Status == 101 {
+				ctx.Count("regression/f42-101-not-a-switch")
+			}
 			if x.Kind != "ok" || len(c.Exchanges) > 1 {
 				nontrivial = true
 			}
